@@ -5,9 +5,9 @@ use std::io::{self, BufRead, Read};
 
 use super::*;
 
-// @verif prop=C20 id=O20.1b tier=quick unwind=4 bound="ARBITRARY window of 0..=8 bytes: gzip magic <=> Bgzf; otherwise BCF iff the window starts with 'BCF', else VCF; short windows never panic" fns="variant::io::reader::builder::detect_compression_method,detect_format"
+// @verif prop=C20 id=O20.1b tier=quick unwind=6 bound="ARBITRARY window of 0..=8 bytes: gzip magic <=> Bgzf; otherwise BCF iff the window starts with 'BCF', else VCF; short windows never panic" fns="variant::io::reader::builder::detect_compression_method,detect_format"
 #[kani::proof]
-#[kani::unwind(4)]
+#[kani::unwind(6)]
 fn c20_variant_detection_on_arbitrary_window() {
     let buf: [u8; 8] = kani::any();
     let n: usize = kani::any();
